@@ -766,6 +766,22 @@ EGLPNUM_TYPENAME_QSLIB_INTERFACE EGLPNUM_TYPENAME_QSdata *EGLPNUM_TYPENAME_QScop
 	/* I added this line because copying the EGLPNUM_TYPENAME_heap (as a pointer) doesn't make any
 	 * sense ! */
 	EGLPNUM_TYPENAME_ILLheap_init (&(p2->pricing->h));
+	/* neither do the arrays owned by p's pricing info (norms, reference
+	 * frames, partial pricing groups): the copy only takes the strategy */
+	p2->pricing->p_scaleinf = 0;
+	p2->pricing->d_scaleinf = 0;
+	p2->pricing->pdinfo.norms = 0;
+	p2->pricing->pdinfo.refframe = 0;
+	p2->pricing->psinfo.norms = 0;
+	p2->pricing->ddinfo.norms = 0;
+	p2->pricing->ddinfo.refframe = 0;
+	p2->pricing->dsinfo.norms = 0;
+	p2->pricing->dmpinfo.gstart = p2->pricing->pmpinfo.gstart = 0;
+	p2->pricing->dmpinfo.gshift = p2->pricing->pmpinfo.gshift = 0;
+	p2->pricing->dmpinfo.gsize = p2->pricing->pmpinfo.gsize = 0;
+	p2->pricing->dmpinfo.bucket = p2->pricing->pmpinfo.bucket = 0;
+	p2->pricing->dmpinfo.perm = p2->pricing->pmpinfo.perm = 0;
+	p2->pricing->dmpinfo.infeas = p2->pricing->pmpinfo.infeas = 0;
 	EGLPNUM_TYPENAME_EGlpNumInitVar (p2->pricing->htrigger);
 	EGLPNUM_TYPENAME_EGlpNumCopy (p2->pricing->htrigger, p->pricing->htrigger);
 
